@@ -116,14 +116,46 @@ def real_timeouts(tier):
             if r["outcome"] != "UnexpectedExit" or r["timer_alive"]:
                 fails.append({"case": {"cmd": "exit 4", "timeout": 30, "pty": pty},
                               "what": "outcome %s, timer alive %s" % (r["outcome"], r["timer_alive"])})
+    # a single process that ignores SIGTERM is killed all the same (SIGKILL), promptly
+    evals += 1
+    prog = "import signal,time; signal.signal(signal.SIGTERM, signal.SIG_IGN); print('started', flush=True); time.sleep(25)"
+    r = rc.run_real("exec %s -c \"%s\"" % (sys.executable, prog), hide=True, in_stream=False, timeout=0.5, bound=25)
+    case = {"cmd": "exec python ignoring SIGTERM", "timeout": 0.5}
+    if r["outcome"] != "CommandTimedOut":
+        fails.append({"case": case, "what": "outcome %s after %.1fs" % (r["outcome"], r["elapsed"])})
+    elif r["elapsed"] - 0.5 > 6.0:
+        fails.append({"case": case, "what": "a SIGTERM-ignoring command was reported only after %.1fs" % r["elapsed"]})
+    # detection latency does not grow with the age of the command: timeout 6 s, reported well before 8 s
+    evals += 1
+    r = rc.run_real("echo started; sleep 30", hide=True, in_stream=False, timeout=6, bound=25)
+    case = {"cmd": "echo started; sleep 30", "timeout": 6}
+    if r["outcome"] != "CommandTimedOut":
+        fails.append({"case": case, "what": "outcome %s after %.1fs" % (r["outcome"], r["elapsed"])})
+    elif r["elapsed"] - 6.0 > 1.8:
+        fails.append({"case": case, "what": "timeout of 6 s reported after %.2fs (exit noticed %.2fs late)"
+                                            % (r["elapsed"], r["elapsed"] - 6.0)})
+    # a timely command under a fractional timeout is left alone
+    evals += 1
+    r = rc.run_real("sleep 0.2; echo done", hide=True, in_stream=False, timeout=0.9, bound=25)
+    if r["outcome"] != "Result" or r["stdout"] != "done\n":
+        fails.append({"case": {"cmd": "sleep 0.2; echo done", "timeout": 0.9},
+                      "what": "outcome %s after %.2fs, stdout %r" % (r["outcome"], r["elapsed"], r["stdout"])})
+    # asynchronous run joined late: the timer has fired meanwhile
+    evals += 1
+    r = rc.run_real("echo started; sleep 20", hide=True, in_stream=False, timeout=0.3, asynchronous=True,
+                    join_delay=1.0, bound=25)
+    if r["outcome"] != "CommandTimedOut" or "started" not in (r["stdout"] or ""):
+        fails.append({"case": {"cmd": "echo started; sleep 20", "timeout": 0.3, "asynchronous": True,
+                               "join_delay": 1.0},
+                      "what": "outcome %s, stdout %r" % (r["outcome"], r["stdout"])})
     # F-C14a: the shell exits 0 at once, a background child keeps the pipes for 2 s, the timer fires at 1 s
     evals += 1
-    r = rc.run_real("(sleep 2 &); exit 0", hide=True, in_stream=False, timeout=1, bound=25)
+    r = rc.run_real("(sleep 4 &); exit 0", hide=True, in_stream=False, timeout=1, bound=25)
     if r["outcome"] == "CommandTimedOut" and r["exited"] == 0:
-        fails.append({"case": {"cmd": "(sleep 2 &); exit 0", "timeout": 1}, "finding": "F-C14a",
+        fails.append({"case": {"cmd": "(sleep 4 &); exit 0", "timeout": 1}, "finding": "F-C14a",
                       "what": "CommandTimedOut raised for a command that had exited 0 before the timer fired"})
     elif r["outcome"] != "Result":
-        fails.append({"case": {"cmd": "(sleep 2 &); exit 0", "timeout": 1}, "what": "outcome %s" % r["outcome"]})
+        fails.append({"case": {"cmd": "(sleep 4 &); exit 0", "timeout": 1}, "what": "outcome %s" % r["outcome"]})
     # F-C14b: the kill reaches the shell only; a descendant keeps the pipe open for 3 s
     evals += 1
     r = rc.run_real("sleep 3 & exec sleep 20", hide=True, in_stream=False, timeout=0.5, bound=25)
@@ -140,6 +172,11 @@ def real_timeouts(tier):
 
 TASKS = '''
 from invoke import task
+
+@task
+def nap(c):
+    c.run("echo napping; sleep 20", hide=True, in_stream=False)
+
 
 @task
 def show(c):
@@ -163,6 +200,17 @@ def cli_source(tier):
             if want not in p.stdout:
                 fails.append({"case": {"args": args}, "what": "expected %s, got %r %r" % (want, p.stdout[:200],
                                                                                           p.stderr[-200:])})
+        evals += 1
+        t0 = time.time()
+        try:
+            p = subprocess.run([sys.executable, "-m", "invoke", "-T", "1", "nap"], cwd=d,
+                               env=dict(os.environ, PYTHONPATH=core.REPO), capture_output=True, text=True, timeout=40)
+            el = time.time() - t0
+            if p.returncode == 0 or el > 12:
+                fails.append({"case": {"args": ["-T", "1", "nap"]},
+                              "what": "exit %s after %.1fs: %r" % (p.returncode, el, (p.stdout + p.stderr)[-200:])})
+        except subprocess.TimeoutExpired:
+            fails.append({"case": {"args": ["-T", "1", "nap"]}, "what": "sleep 20 under -T 1 still running after 40 s"})
     finally:
         import shutil
         shutil.rmtree(d, ignore_errors=True)
